@@ -7,8 +7,9 @@ demo must exit 1.  The worktree is removed afterwards.  Development tool: not a 
 import json, os, shutil, subprocess, sys
 from concurrent.futures import ThreadPoolExecutor
 
-SRC = "/tmp/mut"
+SRC = os.environ.get("SEED_SRC", "/tmp/mut")
 DST = "/verif/seeded"
+OFFSET = int(os.environ.get("SEED_OFFSET", "0"))  # round 2 is filed as <prop>-<k+3>
 
 
 def sh(cmd, cwd=None, timeout=600):
@@ -18,7 +19,7 @@ def sh(cmd, cwd=None, timeout=600):
 
 def confirm(prop, k):
     src = f"{SRC}/{prop}/out/{k}"
-    name = f"{prop}-{k}"
+    name = f"{prop}-{int(k) + OFFSET}" if str(k).isdigit() else f"{prop}-{k}"
     if not os.path.exists(f"{src}/patch.diff") or not os.path.exists(f"{src}/demo.py"):
         return name, False, "missing files"
     if os.path.exists(f"{DST}/{name}/meta.json"):
